@@ -4,15 +4,16 @@
 //
 //	c20 out.json scenario[,scenario..] seconds [watchdogSeconds]
 //
-// scenarios: chain-tip, chain-read, bulk, sync, pool, emitter, diffdb
+// scenarios: chain-tip, chain-read (block cache 515), chain-tip-evict, chain-read-evict (block cache 8: eviction, database
+// path, deep removals), bulk, serve (the sync RPC handlers while the chain changes), sync, pool, emitter, diffdb
+//
+// VERIF_EXPERIMENTAL=1 enables the sub-checks that are red on the unchanged tree (see DESIGN 8.3 / the check's report):
+// removals of more blocks than the cache holds under readers (cache reload), getBlocksFromId for the volatile tip.
 package main
 
 import (
-	"bytes"
-	"context"
 	"encoding/json"
 	"fmt"
-	"math/rand"
 	"os"
 	"regexp"
 	"runtime"
@@ -22,16 +23,6 @@ import (
 	"sync"
 	"sync/atomic"
 	"time"
-
-	"verifharness/internal/node"
-
-	"github.com/LiskHQ/lisk-engine/pkg/blockchain"
-	"github.com/LiskHQ/lisk-engine/pkg/consensus/certificate"
-	"github.com/LiskHQ/lisk-engine/pkg/crypto"
-	"github.com/LiskHQ/lisk-engine/pkg/db"
-	"github.com/LiskHQ/lisk-engine/pkg/db/diffdb"
-	"github.com/LiskHQ/lisk-engine/pkg/event"
-	"github.com/LiskHQ/lisk-engine/pkg/p2p"
 )
 
 type Failure struct {
@@ -109,6 +100,9 @@ type group struct {
 	workers []*worker
 	stop    atomic.Bool
 	wg      sync.WaitGroup
+	// abandoned: the watchdog gave the scenario up; its goroutines leak and what they run into afterwards (objects the
+	// scenario has closed in the meantime) is not an observation
+	abandoned atomic.Bool
 }
 
 // spawn starts a worker; f must call tick() after every completed operation and return when stop() is true.
@@ -121,11 +115,15 @@ func (g *group) spawn(name string, f func(tick func(), stop func() bool)) {
 		defer w.done.Store(true)
 		defer func() {
 			if e := recover(); e != nil {
+				if g.abandoned.Load() {
+					return
+				}
 				buf := make([]byte, 4096)
 				buf = buf[:runtime.Stack(buf, false)]
 				g.out.mu.Lock()
 				g.out.Panics = append(g.out.Panics, fmt.Sprintf("%s: %v\n%s", name, e, firstRepoFrames(string(buf))))
 				g.out.mu.Unlock()
+				g.stop.Store(true) // a panic is an observation: the others need not wait for the watchdog
 			}
 		}()
 		f(func() { w.ctr.Add(1) }, g.stop.Load)
@@ -140,9 +138,38 @@ func (g *group) watch(dur, limit time.Duration) bool {
 	for i := range lastMove {
 		lastMove[i] = start
 	}
+	counters := func() []int64 {
+		c := make([]int64, len(g.workers))
+		for i, w := range g.workers {
+			c[i] = w.ctr.Load()
+		}
+		return c
+	}
 	report := func(kind string, stalled []string) bool {
+		defer g.abandoned.Store(true)
+		before := counters()
 		buf := make([]byte, 8<<20)
 		buf = buf[:runtime.Stack(buf, true)]
+		first := parseStacks(string(buf))
+		// confirmation: a goroutine counts as blocked only if it is found at the same place in a second dump taken later
+		// and none of the stalled workers has moved in between (a starved process is not a deadlocked one)
+		time.Sleep(400 * time.Millisecond)
+		after := counters()
+		for i, w := range g.workers {
+			for _, s := range stalled {
+				if s == w.name && after[i] != before[i] {
+					g.stop.Store(true)
+					g.out.harnessErr("watchdog: %v made no progress for %v but moved again afterwards: overloaded machine, no verdict", stalled, limit)
+					return false
+				}
+			}
+		}
+		buf = buf[:cap(buf)]
+		buf = buf[:runtime.Stack(buf, true)]
+		second := map[string]bool{}
+		for _, b := range parseStacks(string(buf)) {
+			second[b.State+fmt.Sprint(b.Frames)] = true
+		}
 		since := time.Now()
 		for i, w := range g.workers { // the moment the first of the stalled goroutines stopped
 			for _, s := range stalled {
@@ -151,7 +178,12 @@ func (g *group) watch(dur, limit time.Duration) bool {
 				}
 			}
 		}
-		blocked := parseStacks(string(buf))
+		blocked := []Blocked{}
+		for _, b := range first {
+			if second[b.State+fmt.Sprint(b.Frames)] {
+				blocked = append(blocked, b)
+			}
+		}
 		g.stop.Store(true)
 		if len(blocked) == 0 {
 			// nobody waits for a lock or a channel inside lisk-engine: starvation on an overloaded machine, not a verdict
@@ -192,7 +224,7 @@ func (g *group) watch(dur, limit time.Duration) bool {
 	select {
 	case <-fin:
 		return true
-	case <-time.After(limit):
+	case <-time.After(3 * limit): // the join gets more time than a single operation: on a loaded machine wide lookups are slow
 		names := []string{}
 		for i, w := range g.workers {
 			if !w.done.Load() {
@@ -265,7 +297,18 @@ func firstRepoFrames(stack string) string {
 	return strings.Join(s, " <- ")
 }
 
-// parseStacks keeps the goroutines that are blocked on a lock or a channel send inside lisk-engine code.
+// types whose methods the property anchors (harness/extract targets and their helpers): a goroutine that waits on a
+// channel receive, a select or a condition variable counts as blocked only when its innermost lisk-engine frame belongs
+// to one of them (the network layer and the syncers wait on channels legitimately)
+var anchored = map[string]bool{"blockCache": true, "DataAccess": true, "Chain": true, "Pool": true, "SingleCommits": true, "EventEmitter": true,
+	"Database": true, "cacheDB": true, "sharedCache": true, "Syncer": true}
+
+func waitState(st string) bool {
+	return strings.HasPrefix(st, "chan receive") || strings.HasPrefix(st, "select") || strings.HasPrefix(st, "sync.Cond.Wait")
+}
+
+// parseStacks keeps the goroutines that are blocked on a lock or a channel send inside lisk-engine code, and those that
+// wait on a channel receive / select / condition variable inside a method of an anchored type.
 func parseStacks(dump string) []Blocked {
 	res := []Blocked{}
 	idx := map[string]int{}
@@ -276,11 +319,15 @@ func parseStacks(dump string) []Blocked {
 			continue
 		}
 		st := m[1]
-		if !(strings.Contains(st, "Lock") || strings.Contains(st, "semacquire") || st == "chan send") {
+		lockish := strings.Contains(st, "Lock") || strings.Contains(st, "semacquire") || st == "chan send"
+		if !lockish && !waitState(st) {
 			continue
 		}
 		fr := repoFrames(lines[1:])
 		if len(fr) == 0 {
+			continue
+		}
+		if !lockish && !anchored[strings.SplitN(fr[0].Fn, ".", 2)[0]] {
 			continue
 		}
 		if len(fr) > 6 {
@@ -296,900 +343,6 @@ func parseStacks(dump string) []Blocked {
 	}
 	sort.Slice(res, func(i, j int) bool { return res[i].Count > res[j].Count })
 	return res
-}
-
-// ---------------------------------------------------------------------------------------------- chain
-
-var hcfg = node.Config{NVal: 3, Batch: 3, Init: node.ParamSet{PcT: 2, CertT: 2, W: []uint64{1, 1, 1}, Gens: []int{1, 2, 3}}, Now: 15000}
-
-type chainEnv struct {
-	n        *node.Node
-	da       *blockchain.DataAccess
-	out      *ScnOut
-	hi       atomic.Uint32 // largest height the writer has tried to commit
-	stable   atomic.Uint32 // heights <= stable are never removed again
-	remStart atomic.Uint64 // removals begun
-	remEnd   atomic.Uint64 // removals completed
-	ids      sync.Map      // height -> block id (heights <= stable)
-	txs      sync.Map      // height -> [][]byte transaction ids
-	gens     []int
-}
-
-func newChainEnv(out *ScnOut) *chainEnv {
-	cfg := hcfg
-	n, err := node.New(&cfg, nil, 0)
-	if err != nil {
-		out.harnessErr("node.New: %v", err)
-		return nil
-	}
-	e := &chainEnv{n: n, da: n.Chain.DataAccess(), out: out, gens: []int{0}}
-	e.ids.Store(uint32(0), []byte(n.Genesis.Header.ID))
-	e.txs.Store(uint32(0), [][]byte{})
-	return e
-}
-
-func (e *chainEnv) add() bool {
-	n := e.n
-	tip := n.Tip()
-	o, err := n.Observe()
-	if err != nil {
-		e.out.harnessErr("observe: %v", err)
-		return false
-	}
-	h := tip.Header.Height + 1
-	slot := n.Slot.GetSlotNumber(tip.Header.Timestamp) + 1
-	if slot > n.Cfg.Now {
-		return false
-	}
-	gen := n.Cfg.Init.Gens[slot%len(n.Cfg.Init.Gens)]
-	mhg := uint32(0)
-	e.gens = e.gens[:h] // heights above the tip were removed
-	for x := len(e.gens) - 1; x >= 1; x-- {
-		if e.gens[x] == gen {
-			mhg = uint32(x)
-			break
-		}
-	}
-	c := &node.Cand{Version: 2, H: h, Prev: "tip", Slot: slot, Gen: gen, Signer: gen, Sig: "ok", Mhp: o.Mhpv, Mhg: mhg, Ntx: 2}
-	c.Ac.H, c.Ac.Kind = o.Cert, "empty"
-	b := n.Build(c)
-	if h > e.hi.Load() {
-		e.hi.Store(h)
-	}
-	if err := n.Ex.VerifProcess(b, "12D3KooWverifpeer"); err != nil || !bytes.Equal(n.Tip().Header.ID, b.Header.ID) {
-		e.out.harnessErr("a valid successor at height %d was not accepted: %v", h, err)
-		return false
-	}
-	e.gens = append(e.gens, gen)
-	return true
-}
-
-func (e *chainEnv) remove() bool {
-	e.remStart.Add(1)
-	err := e.n.Ex.VerifDeleteBlock(e.n.Tip(), false)
-	e.remEnd.Add(1)
-	if err != nil {
-		e.out.harnessErr("delete of the tip failed: %v", err)
-		return false
-	}
-	return true
-}
-
-// publish registers everything up to the current tip as stable
-// quiet reports that no removal overlapped the interval since mark = remEnd.Load()
-func (e *chainEnv) quiet(mark uint64) bool { return e.remStart.Load() == mark }
-
-func (e *chainEnv) publish() {
-	tip := e.n.Tip().Header.Height
-	for h := e.stable.Load() + 1; h <= tip; h++ {
-		b, err := e.da.GetBlockByHeight(h)
-		if err != nil {
-			e.out.harnessErr("writer cannot read its own block %d: %v", h, err)
-			return
-		}
-		ids := [][]byte{}
-		for _, tx := range b.Transactions {
-			ids = append(ids, tx.ID)
-		}
-		e.ids.Store(h, []byte(b.Header.ID))
-		e.txs.Store(h, ids)
-	}
-	e.stable.Store(tip)
-}
-
-func (e *chainEnv) writer(tick func(), stop func() bool) {
-	for !stop() {
-		e.publish()
-		for k := 0; k < 3; k++ {
-			if !e.add() {
-				return
-			}
-			tick()
-		}
-		for k := 0; k < 2; k++ {
-			if !e.remove() {
-				return
-			}
-			tick()
-		}
-	}
-}
-
-func (e *chainEnv) checkTip(b *blockchain.Block, api string, stableBefore uint32) {
-	if b == nil || b.Header == nil {
-		e.out.fail("tip:incomplete:"+api, api+" returned no block while the chain has a tip", nil)
-		return
-	}
-	if !bytes.Equal(crypto.Hash(b.Header.Encode()), b.Header.ID) {
-		e.out.fail("tip:incomplete:"+api, fmt.Sprintf("%s: header at height %d does not hash to its id", api, b.Header.Height), nil)
-	}
-	if b.Header.Height > e.hi.Load() {
-		e.out.fail("tip:uncommitted:"+api, fmt.Sprintf("%s returned height %d beyond anything the writer has committed (%d)", api, b.Header.Height, e.hi.Load()), nil)
-	}
-	if b.Header.Height < stableBefore {
-		e.out.fail("tip:stale:"+api, fmt.Sprintf("%s returned height %d below %d, which was committed for good before the call", api, b.Header.Height, stableBefore), nil)
-	}
-}
-
-func (e *chainEnv) tipReader(idx int) func(func(), func() bool) {
-	return func(tick func(), stop func() bool) {
-		for i := 0; !stop(); i++ {
-			rm, st := e.remEnd.Load(), e.stable.Load()
-			var b *blockchain.Block
-			api := ""
-			switch (i + idx) % 3 {
-			case 0:
-				api, b = "Chain.LastBlock", e.n.Chain.LastBlock()
-			case 1:
-				api, b = "DataAccess.CachedLastBlock", e.da.CachedLastBlock()
-			default:
-				api = "DataAccess.GetLastBlock"
-				x, err := e.da.GetLastBlock()
-				if err != nil {
-					e.out.fail("tip:incomplete:"+api, api+": "+err.Error(), nil)
-				}
-				b = x
-			}
-			e.checkTip(b, api, st)
-			if b != nil && b.Header != nil {
-				got, err := e.da.GetBlock(b.Header.ID)
-				if (err != nil || !bytes.Equal(got.Header.ID, b.Header.ID)) && e.quiet(rm) {
-					e.out.fail("tip:not-retrievable", fmt.Sprintf("tip %d obtained through %s cannot be fetched by id: %v", b.Header.Height, api, err), nil)
-				}
-				// "some complete COMMITTED tip": what the tip announces must already be in the database (these look-ups do
-				// not go through the block cache)
-				if len(b.Transactions) > 0 {
-					if _, err := e.da.GetTransaction(b.Transactions[0].ID); err != nil && e.quiet(rm) {
-						e.out.fail("tip:uncommitted-data:"+api, fmt.Sprintf("tip %d obtained through %s: its first transaction is not in the database yet: %v", b.Header.Height, api, err), nil)
-					}
-				}
-			}
-			tick()
-		}
-	}
-}
-
-func (e *chainEnv) pick(r *rand.Rand) (heights []uint32, ok bool) {
-	st := e.stable.Load()
-	if st < 6 {
-		return nil, false
-	}
-	span := uint32(40)
-	if r.Intn(3) == 0 {
-		span = 700 // beyond the block cache: database path
-	}
-	lo := uint32(1)
-	if st > span {
-		lo = st - span
-	}
-	k := 8 + r.Intn(56)
-	seen := map[uint32]bool{}
-	for i := 0; i < k; i++ {
-		h := lo + uint32(r.Intn(int(st-lo+1)))
-		if !seen[h] {
-			seen[h] = true
-			heights = append(heights, h)
-		}
-	}
-	return heights, true
-}
-
-func (e *chainEnv) id(h uint32) []byte { v, _ := e.ids.Load(h); return v.([]byte) }
-
-// multiset compares the ids returned by a bulk lookup with the existing requested ids
-func (e *chainEnv) multiset(api string, want [][]byte, got [][]byte, detail string) {
-	e.out.count("bulk_calls:"+api, 1)
-	e.out.count("bulk_items:"+api, int64(len(want)))
-	cnt := map[string]int{}
-	for _, g := range got {
-		cnt[string(g)]++
-	}
-	lost, dup, extra := 0, 0, 0
-	for _, w := range want {
-		switch c := cnt[string(w)]; {
-		case c == 0:
-			lost++
-		case c > 1:
-			dup++
-		}
-		delete(cnt, string(w))
-	}
-	extra = len(cnt)
-	if lost > 0 {
-		e.out.fail("lost-item:"+api, fmt.Sprintf("%s(%s): %d of %d existing items missing from the result (%d returned)", api, detail, lost, len(want), len(got)), nil)
-	}
-	if dup > 0 {
-		e.out.fail("dup-item:"+api, fmt.Sprintf("%s(%s): %d items returned more than once", api, detail, dup), nil)
-	}
-	if extra > 0 {
-		e.out.fail("extra-item:"+api, fmt.Sprintf("%s(%s): %d items that were not requested", api, detail, extra), nil)
-	}
-}
-
-func (e *chainEnv) bulk(r *rand.Rand, which int) bool {
-	heights, ok := e.pick(r)
-	if !ok {
-		return false
-	}
-	switch which % 4 {
-	case 0:
-		ids := [][]byte{crypto.RandomBytes(32)}
-		want := [][]byte{}
-		for _, h := range heights {
-			ids, want = append(ids, e.id(h)), append(want, e.id(h))
-		}
-		res, err := e.da.GetBlockHeaders(ids)
-		got := [][]byte{}
-		for _, x := range res {
-			if x == nil {
-				e.out.fail("nil-item:GetBlockHeaders", "nil header in the result", nil)
-				continue
-			}
-			got = append(got, x.ID)
-		}
-		if err != nil {
-			e.out.fail("error:GetBlockHeaders", err.Error(), nil)
-		} else {
-			e.multiset("GetBlockHeaders", want, got, fmt.Sprintf("%d ids", len(ids)))
-		}
-	case 1:
-		want := [][]byte{}
-		for _, h := range heights {
-			want = append(want, e.id(h))
-		}
-		res, err := e.da.GetBlockHeadersByHeights(append([]uint32{4000000000}, heights...))
-		got := [][]byte{}
-		for _, x := range res {
-			if x == nil {
-				e.out.fail("nil-item:GetBlockHeadersByHeights", "nil header in the result", nil)
-				continue
-			}
-			got = append(got, x.ID)
-		}
-		if err != nil {
-			e.out.fail("error:GetBlockHeadersByHeights", err.Error(), nil)
-		} else {
-			e.multiset("GetBlockHeadersByHeights", want, got, fmt.Sprintf("%d heights", len(heights)+1))
-		}
-	case 2:
-		ids := [][]byte{crypto.RandomBytes(32)}
-		want := [][]byte{}
-		for _, h := range heights {
-			v, _ := e.txs.Load(h)
-			for _, t := range v.([][]byte) {
-				ids, want = append(ids, t), append(want, t)
-			}
-		}
-		res, err := e.da.GetTransactions(ids)
-		got := [][]byte{}
-		for _, x := range res {
-			if x == nil {
-				e.out.fail("nil-item:GetTransactions", "nil transaction in the result", nil)
-				continue
-			}
-			got = append(got, x.ID)
-		}
-		if err != nil {
-			e.out.fail("error:GetTransactions", err.Error(), nil)
-		} else {
-			e.multiset("GetTransactions", want, got, fmt.Sprintf("%d ids", len(ids)))
-		}
-	default:
-		sort.Slice(heights, func(i, j int) bool { return heights[i] < heights[j] })
-		from, to := heights[0], heights[0]+uint32(len(heights))
-		if st := e.stable.Load(); to > st {
-			to = st
-		}
-		want := [][]byte{}
-		for h := from; h <= to; h++ {
-			want = append(want, e.id(h))
-		}
-		res, err := e.da.GetBlocksBetweenHeight(from, to)
-		got := [][]byte{}
-		for _, x := range res {
-			if x == nil || x.Header == nil {
-				e.out.fail("nil-item:GetBlocksBetweenHeight", "nil block in the result", nil)
-				continue
-			}
-			got = append(got, x.Header.ID)
-		}
-		if err != nil {
-			e.out.fail("error:GetBlocksBetweenHeight", err.Error(), nil)
-		} else {
-			e.multiset("GetBlocksBetweenHeight", want, got, fmt.Sprintf("%d..%d", from, to))
-		}
-	}
-	return true
-}
-
-func (e *chainEnv) reader(idx int, seed int64) func(func(), func() bool) {
-	return func(tick func(), stop func() bool) {
-		r := rand.New(rand.NewSource(seed*1000 + int64(idx)))
-		for i := 0; !stop(); i++ {
-			st := e.stable.Load()
-			switch r.Intn(6) {
-			case 0: // single lookups of stable blocks, by height and by id
-				h := uint32(r.Intn(int(st) + 1))
-				hd, err := e.da.GetBlockHeaderByHeight(h)
-				if err != nil || !bytes.Equal(hd.ID, e.id(h)) {
-					e.out.fail("lookup:GetBlockHeaderByHeight", fmt.Sprintf("committed height %d: %v", h, err), nil)
-				}
-				hd, err = e.da.GetBlockHeader(e.id(h))
-				if err != nil || hd.Height != h {
-					e.out.fail("lookup:GetBlockHeader", fmt.Sprintf("committed height %d: %v", h, err), nil)
-				}
-				b, err := e.da.GetBlockByHeight(h)
-				if err != nil || !bytes.Equal(b.Header.ID, e.id(h)) || (h > 0 && len(b.Transactions) != 2) {
-					e.out.fail("lookup:GetBlockByHeight", fmt.Sprintf("committed height %d: %v", h, err), nil)
-				}
-			case 1: // tip through the database index
-				rm := e.remEnd.Load()
-				hd, err := e.da.GetLastBlockHeader()
-				if err != nil {
-					if e.quiet(rm) {
-						e.out.fail("tip:incomplete:DataAccess.GetLastBlockHeader", err.Error(), nil)
-					} else {
-						e.out.count("tip_lookup_overlapped_by_removal", 1)
-					}
-				} else if hd.Height > e.hi.Load() || hd.Height < st {
-					e.out.fail("tip:uncommitted:DataAccess.GetLastBlockHeader", fmt.Sprintf("height %d outside [%d, %d]", hd.Height, st, e.hi.Load()), nil)
-				}
-			default:
-				e.bulk(r, i)
-			}
-			tick()
-		}
-	}
-}
-
-func scnChain(out *ScnOut, tip bool, seed int64, dur, limit time.Duration) {
-	e := newChainEnv(out)
-	if e == nil {
-		return
-	}
-	g := &group{out: out}
-	g.spawn("writer", e.writer)
-	for i := 0; i < 8; i++ {
-		if tip {
-			g.spawn(fmt.Sprintf("tipreader%d", i), e.tipReader(i))
-		} else {
-			g.spawn(fmt.Sprintf("reader%d", i), e.reader(i, seed))
-		}
-	}
-	if g.watch(dur, limit) {
-		e.n.Close()
-	}
-	g.collect()
-	out.count("tip_height", int64(e.hi.Load()))
-}
-
-// bulk lookups on a quiescent chain: the only concurrency is the fan-out inside the lookup itself (and K callers)
-func scnBulk(out *ScnOut, seed int64, dur, limit time.Duration) {
-	e := newChainEnv(out)
-	if e == nil {
-		return
-	}
-	for i := 0; i < 120; i++ {
-		if !e.add() {
-			out.harnessErr("cannot build the chain")
-			return
-		}
-	}
-	e.publish()
-	g := &group{out: out}
-	for i := 0; i < 4; i++ {
-		idx := i
-		g.spawn(fmt.Sprintf("bulk%d", i), func(tick func(), stop func() bool) {
-			r := rand.New(rand.NewSource(seed*77 + int64(idx)))
-			for j := 0; !stop(); j++ {
-				e.bulk(r, j+idx)
-				tick()
-			}
-		})
-	}
-	if g.watch(dur, limit) {
-		e.n.Close()
-	}
-	g.collect()
-}
-
-// ---------------------------------------------------------------------------------------------- block sync collector
-
-// scnSync lets a fresh node synchronise with two connected peers through the real Executer: a block far ahead of
-// the tip routes into blockSyncer.Sync, which asks every connected peer for its last block header from one
-// goroutine per peer and collects the answers.  Only the -race build can observe the collector.
-func scnSync(out *ScnOut, seed int64, dur, limit time.Duration) {
-	mk := func(ts uint32) *node.Node {
-		cfg := hcfg
-		cfg.Network = true
-		n, err := node.New(&cfg, nil, ts)
-		if err != nil {
-			out.harnessErr("node.New: %v", err)
-			return nil
-		}
-		return n
-	}
-	p1 := mk(0)
-	if p1 == nil {
-		return
-	}
-	p2, s := mk(p1.GenesisTS), mk(p1.GenesisTS)
-	if p2 == nil || s == nil {
-		return
-	}
-	e1 := &chainEnv{n: p1, da: p1.Chain.DataAccess(), out: out, gens: []int{0}}
-	for i := 0; i < 30; i++ {
-		if !e1.add() {
-			out.harnessErr("cannot build the peers' chain")
-			return
-		}
-		if err := p2.Ex.VerifProcess(p1.Tip(), "12D3KooWverifpeer"); err != nil {
-			out.harnessErr("second peer rejects block %d: %v", i+1, err)
-			return
-		}
-	}
-	for _, p := range []*node.Node{p1, p2} {
-		addrs, err := p.Conn.MultiAddress()
-		if err != nil || len(addrs) == 0 {
-			out.harnessErr("peer has no listen address: %v", err)
-			return
-		}
-		ai, err := p2p.AddrInfoFromMultiAddr(addrs[0])
-		if err == nil {
-			err = s.Conn.Connect(context.Background(), *ai)
-		}
-		if err != nil {
-			out.harnessErr("connect: %v", err)
-			return
-		}
-	}
-	for i := 0; i < 100 && len(s.Conn.ConnectedPeers()) < 2; i++ {
-		time.Sleep(20 * time.Millisecond)
-	}
-	out.count("peers", int64(len(s.Conn.ConnectedPeers())))
-	g := &group{out: out}
-	g.spawn("syncer", func(tick func(), stop func() bool) {
-		err := s.Ex.VerifProcess(p1.Tip(), p1.Conn.ID())
-		out.count("synced_to_height", int64(s.Tip().Header.Height))
-		if err != nil {
-			out.count("sync_returned_error", 1)
-		}
-		tick()
-	})
-	if g.watch(dur+10*time.Second, 5*limit) {
-		s.Close()
-		p1.Close()
-		p2.Close()
-	}
-	g.collect()
-}
-
-// ---------------------------------------------------------------------------------------------- certificate pool
-
-func scnPool(out *ScnOut, seed int64, dur, limit time.Duration) {
-	const G, perG, shared = 6, 40, 12
-	chainID := []byte{4, 0, 0, 7}
-	keys := make([]*crypto.BLSKeyPair, G)
-	for i := range keys {
-		keys[i] = crypto.BLSKeyGen(crypto.Hash([]byte(fmt.Sprintf("c20-pool-%d", i))))
-	}
-	mk := func(h uint32, tag string, v int) *certificate.SingleCommit {
-		hd := &blockchain.BlockHeader{Height: h, Timestamp: h, StateRoot: make([]byte, 32), ValidatorsHash: make([]byte, 32),
-			PreviousBlockID: crypto.Hash([]byte(tag)), GeneratorAddress: make([]byte, 20), AggregateCommit: &blockchain.AggregateCommit{}}
-		hd.Init()
-		addr := crypto.Hash([]byte(fmt.Sprintf("validator-%d", v)))[:20]
-		return certificate.NewSingleCommit(hd, addr, chainID, keys[v%G].PrivateKey)
-	}
-	key := func(c *certificate.SingleCommit) string {
-		return string(c.BlockID()) + "/" + string(c.ValidatorAddress())
-	}
-	pool := certificate.NewPool()
-	own := make([][]*certificate.SingleCommit, G)
-	for i := 0; i < G; i++ {
-		for j := 0; j < perG; j++ {
-			own[i] = append(own[i], mk(uint32(100+j%20), fmt.Sprintf("own-%d-%d", i, j), i))
-		}
-		for j := 0; j < shared; j++ { // the same (block, validator) is offered by every goroutine as a distinct object
-			own[i] = append(own[i], mk(uint32(130+j), fmt.Sprintf("shared-%d", j), 99))
-		}
-	}
-	low := []*certificate.SingleCommit{}
-	for j := 0; j < 10; j++ {
-		c := mk(uint32(1+j), fmt.Sprintf("low-%d", j), 0)
-		low = append(low, c)
-		pool.Add(c)
-	}
-	expect := map[string]uint32{}
-	for i := range own {
-		for _, c := range own[i] {
-			expect[key(c)] = c.Height()
-		}
-	}
-	// phase 0: one fresh commit offered by all goroutines at the same instant (the same commit arriving from several
-	// peers): a duplicate check that is not atomic with the insertion shows here, and almost nowhere else
-	const simRounds = 400
-	simDup := 0
-	for r := 0; r < simRounds && simDup == 0; r++ {
-		c := mk(uint32(160+r%30), fmt.Sprintf("simultaneous-%d", r), 98)
-		expect[key(c)] = c.Height()
-		var ready, done sync.WaitGroup
-		var goFlag atomic.Bool
-		for i := 0; i < G; i++ {
-			ready.Add(1)
-			done.Add(1)
-			go func() {
-				defer done.Done()
-				ready.Done()
-				for !goFlag.Load() {
-				}
-				pool.Add(c)
-			}()
-		}
-		ready.Wait()
-		goFlag.Store(true)
-		done.Wait()
-		n := 0
-		for _, x := range pool.Get(c.Height()) {
-			if key(x) == key(c) {
-				n++
-			}
-		}
-		if n != 1 {
-			simDup++
-			out.fail("pool:duplicate-commit", fmt.Sprintf("round %d: one single commit added by %d goroutines at once is in the pool %d times", r, G, n), nil)
-		}
-	}
-	g := &group{out: out}
-	var added atomic.Int64
-	for i := 0; i < G; i++ {
-		idx := i
-		g.spawn(fmt.Sprintf("adder%d", i), func(tick func(), stop func() bool) {
-			r := rand.New(rand.NewSource(seed*13 + int64(idx)))
-			for j := 0; !stop(); j++ {
-				c := own[idx][j%len(own[idx])]
-				pool.Add(c)
-				added.Add(1)
-				if !pool.Has(c) {
-					out.fail("lost-item:Pool.nonGossiped", "Has is false right after Add (Cleanup keeps this height)", nil)
-				}
-				seen := 0
-				for _, x := range pool.Get(c.Height()) {
-					if key(x) == key(c) {
-						seen++
-					}
-				}
-				if seen != 1 {
-					out.fail("pool:commit-count", fmt.Sprintf("Get(height) returned the added commit %d times", seen), nil)
-				}
-				if r.Intn(4) == 0 {
-					_ = pool.Size()
-				}
-				tick()
-			}
-		})
-	}
-	g.spawn("selector", func(tick func(), stop func() bool) {
-		for !stop() {
-			// (Select may list a commit twice by construction - below the stored range and again among the largest -
-			// which is sequential behaviour outside this property)
-			sel := pool.Select(150, 30)
-			pool.Upgrade(sel)
-			tick()
-		}
-	})
-	g.spawn("cleaner", func(tick func(), stop func() bool) {
-		for !stop() {
-			pool.Cleanup(func(h uint32) bool { return h >= 100 })
-			tick()
-		}
-	})
-	if !g.watch(dur, limit) {
-		g.collect()
-		return
-	}
-	g.collect()
-	// quiescence: every goroutine offered all of its commits at least once
-	if added.Load() < int64(G*(perG+shared)) {
-		out.harnessErr("pool scenario too short: %d adds", added.Load())
-		return
-	}
-	pool.Cleanup(func(h uint32) bool { return h >= 100 })
-	got := map[string]int{}
-	for h := uint32(0); h < 200; h++ {
-		for _, c := range pool.Get(h) {
-			got[key(c)]++
-		}
-	}
-	lost, dup := 0, 0
-	for k := range expect {
-		switch {
-		case got[k] == 0:
-			lost++
-		case got[k] > 1:
-			dup++
-		}
-	}
-	if lost > 0 {
-		out.fail("lost-item:Pool.nonGossiped", fmt.Sprintf("%d of %d added commits are not in the pool at quiescence", lost, len(expect)), nil)
-	}
-	if dup > 0 {
-		out.fail("pool:duplicate-commit", fmt.Sprintf("%d commits are in the pool more than once at quiescence", dup), nil)
-	}
-	for _, c := range low {
-		if pool.Has(c) {
-			out.fail("pool:cleanup-ineffective", "a commit below the cleanup height survived", nil)
-			break
-		}
-	}
-	if pool.Size() != len(expect) {
-		out.fail("pool:size", fmt.Sprintf("Size() = %d, distinct commits added = %d", pool.Size(), len(expect)), nil)
-	}
-	out.count("pool_commits", int64(len(expect)))
-}
-
-// ---------------------------------------------------------------------------------------------- event emitter
-
-func scnEmitter(out *ScnOut, seed int64, dur, limit time.Duration) {
-	ee := event.New()
-	topics := []string{"a", "b"}
-	var published [2]atomic.Int64
-	var received [2][2]atomic.Int64
-	var drainers sync.WaitGroup
-	drain := func(ch chan interface{}, ctr *atomic.Int64) {
-		drainers.Add(1)
-		go func() {
-			defer drainers.Done()
-			for range ch {
-				if ctr != nil {
-					ctr.Add(1)
-				}
-			}
-		}()
-	}
-	for t := range topics {
-		for s := 0; s < 2; s++ {
-			drain(ee.Subscribe(topics[t]), &received[t][s]) // persistent live subscribers
-		}
-	}
-	g := &group{out: out}
-	var closed, closing atomic.Bool // closing: Close is about to be called; closed: Close has returned
-	for i := 0; i < 3; i++ {
-		idx := i
-		g.spawn(fmt.Sprintf("publisher%d", i), func(tick func(), stop func() bool) {
-			for j := 0; !stop(); j++ {
-				t := (j + idx) % 2
-				afterClose := closed.Load()
-				ee.Publish(topics[t], j)
-				if !closing.Load() {
-					published[t].Add(1) // completed before Close was called: delivered to every persistent subscriber
-				} else if !afterClose {
-					out.count("publish_overlapped_close", 1) // delivery not determined
-				}
-				tick()
-			}
-		})
-	}
-	for i := 0; i < 2; i++ {
-		idx := i
-		g.spawn(fmt.Sprintf("churn%d", i), func(tick func(), stop func() bool) {
-			r := rand.New(rand.NewSource(seed*5 + int64(idx)))
-			for !stop() && !closing.Load() {
-				t := r.Intn(2)
-				ch := ee.Subscribe(topics[t])
-				drain(ch, nil)
-				if r.Intn(2) == 0 {
-					time.Sleep(time.Duration(r.Intn(200)) * time.Microsecond)
-				}
-				// also after Close: a topic re-created by a late Subscribe is released here (Close already closed the others)
-				ee.Unsubscribe(topics[t], ch) //nolint
-				tick()
-			}
-		})
-	}
-	g.spawn("closer", func(tick func(), stop func() bool) {
-		// Close arrives while publishers are still publishing
-		deadline := time.Now().Add(dur * 3 / 4)
-		for !stop() && time.Now().Before(deadline) {
-			time.Sleep(5 * time.Millisecond)
-			tick()
-		}
-		closing.Store(true)
-		ee.Close() //nolint
-		closed.Store(true)
-		tick()
-	})
-	ok := g.watch(dur, limit)
-	g.collect()
-	if !ok {
-		return
-	}
-	fin := make(chan struct{})
-	go func() { drainers.Wait(); close(fin) }()
-	select {
-	case <-fin:
-	case <-time.After(limit):
-		out.fail("emitter:subscriber-not-released", "Close returned but a live subscriber's channel was never closed", nil)
-		return
-	}
-	out.mu.Lock()
-	overlapped := out.Counts["publish_overlapped_close"]
-	out.mu.Unlock()
-	for t := range topics {
-		for s := 0; s < 2; s++ {
-			p, r := published[t].Load(), received[t][s].Load()
-			out.count("published", p)
-			// every Publish that completed before Close started was delivered once; those overlapping Close may or may not be
-			if r < p || r > p+overlapped {
-				out.fail("emitter:delivery", fmt.Sprintf("persistent subscriber %d of topic %s received %d messages, %d were published", s, topics[t], r, p), nil)
-			}
-		}
-	}
-}
-
-// ---------------------------------------------------------------------------------------------- diffdb views
-
-func scnDiffdb(out *ScnOut, seed int64, dur, limit time.Duration) {
-	store, err := db.NewInMemoryDB()
-	if err != nil {
-		out.harnessErr("db: %v", err)
-		return
-	}
-	defer store.Close()
-	const G = 6
-	rootPrefix := []byte{10}
-	models := make([]map[string][]byte, G)
-	for i := 0; i < G; i++ {
-		models[i] = map[string][]byte{}
-		for k := 0; k < 8; k++ { // pre-existing committed keys: the store path is exercised
-			key, val := []byte{byte(k), 0, 1}, []byte{byte(i), byte(k)}
-			store.Set(append(append([]byte{}, rootPrefix...), append([]byte{byte(i)}, key...)...), val)
-			models[i][string(key)] = val
-		}
-	}
-	// phase 0: a reader and a writer on two views of the SAME prefix meet on a key that is committed but not yet in the
-	// overlay (the reader goes to the store): once the writer's Set / Del has returned, every later read sees it
-	{
-		const N = 3000
-		pfx := []byte{200}
-		for k := 0; k < N; k++ {
-			store.Set(append(append([]byte{}, rootPrefix...), append(pfx, byte(k>>8), byte(k))...), []byte{1, byte(k)})
-		}
-		shared := diffdb.New(store, rootPrefix)
-		lostSet, lostDel := 0, 0
-		for k := 0; k < N && lostSet+lostDel == 0; k++ {
-			key := []byte{byte(k >> 8), byte(k)}
-			del := k%3 == 0
-			var ready, done sync.WaitGroup
-			var goFlag atomic.Bool
-			ready.Add(2)
-			done.Add(2)
-			go func() {
-				defer done.Done()
-				v := shared.WithPrefix(pfx)
-				ready.Done()
-				for !goFlag.Load() {
-				}
-				v.Get(key)
-			}()
-			go func() {
-				defer done.Done()
-				v := shared.WithPrefix(pfx)
-				ready.Done()
-				for !goFlag.Load() {
-				}
-				if del {
-					v.Del(key)
-				} else {
-					v.Set(key, []byte{2, byte(k)})
-				}
-			}()
-			ready.Wait()
-			goFlag.Store(true)
-			done.Wait()
-			got, ok := shared.WithPrefix(pfx).Get(key)
-			if del && ok {
-				lostDel++
-			}
-			if !del && (!ok || !bytes.Equal(got, []byte{2, byte(k)})) {
-				lostSet++
-			}
-		}
-		if lostSet+lostDel > 0 {
-			out.fail("diffdb:staged-write-lost", fmt.Sprintf("a Set / Del that had returned is not seen by a later Get on a view of the same prefix after a concurrent Get of the same key (lost sets %d, lost deletes %d)", lostSet, lostDel), nil)
-		}
-	}
-	root := diffdb.New(store, rootPrefix)
-	g := &group{out: out}
-	check := func(idx int, view *diffdb.Database, m map[string][]byte, where string) {
-		kvs := view.Iterate([]byte{}, -1, false)
-		if len(kvs) != len(m) {
-			out.fail("diffdb:view-inconsistent", fmt.Sprintf("%s: view %d iterates %d keys, its owner wrote %d", where, idx, len(kvs), len(m)), nil)
-			return
-		}
-		for i, kv := range kvs {
-			if v, ok := m[string(kv.Key())]; !ok || !bytes.Equal(v, kv.Value()) {
-				out.fail("diffdb:view-inconsistent", fmt.Sprintf("%s: view %d key %x differs from what its owner wrote", where, idx, kv.Key()), nil)
-				return
-			}
-			if i > 0 && bytes.Compare(kvs[i-1].Key(), kv.Key()) >= 0 {
-				out.fail("diffdb:view-order", fmt.Sprintf("%s: view %d iteration not strictly ascending", where, idx), nil)
-				return
-			}
-		}
-	}
-	for i := 0; i < G; i++ {
-		idx := i
-		g.spawn(fmt.Sprintf("view%d", i), func(tick func(), stop func() bool) {
-			r := rand.New(rand.NewSource(seed*31 + int64(idx)))
-			view := root.WithPrefix([]byte{byte(idx)})
-			m := models[idx]
-			for j := 0; !stop(); j++ {
-				key := []byte{byte(r.Intn(12)), 0, byte(r.Intn(3))}
-				switch r.Intn(8) {
-				case 0, 1, 2:
-					val := []byte{byte(idx), byte(j), byte(j >> 8)}
-					view.Set(key, val)
-					m[string(key)] = val
-				case 3:
-					view.Del(key)
-					delete(m, string(key))
-				case 4:
-					if _, ok := m[string(key)]; view.Has(key) != ok {
-						out.fail("diffdb:view-inconsistent", fmt.Sprintf("view %d Has(%x) disagrees with its owner's writes", idx, key), nil)
-					}
-				case 5:
-					check(idx, view, m, "Iterate")
-				case 6:
-					view = root.WithPrefix([]byte{byte(idx)}) // a fresh view of the same prefix shares overlay and mutex
-				default:
-					v, ok := view.Get(key)
-					if w, has := m[string(key)]; ok != has || !bytes.Equal(v, w) {
-						out.fail("diffdb:view-inconsistent", fmt.Sprintf("view %d Get(%x) = %x,%v; its owner wrote %x,%v", idx, key, v, ok, w, has), nil)
-					}
-				}
-				tick()
-			}
-		})
-	}
-	g.spawn("snapshotter", func(tick func(), stop func() bool) {
-		for !stop() {
-			id := root.Snapshot()
-			root.DeleteSnapshot(id)
-			tick()
-		}
-	})
-	ok := g.watch(dur, limit)
-	g.collect()
-	if !ok {
-		return
-	}
-	batch := store.NewBatch()
-	root.Commit(batch)
-	store.Write(batch)
-	fresh := diffdb.New(store, rootPrefix)
-	for i := 0; i < G; i++ {
-		check(i, fresh.WithPrefix([]byte{byte(i)}), models[i], "after Commit")
-	}
 }
 
 // ---------------------------------------------------------------------------------------------- main
@@ -1217,16 +370,33 @@ func main() {
 		func() {
 			defer func() {
 				if e := recover(); e != nil {
-					out.harnessErr("scenario set-up panicked: %v", e)
+					buf := make([]byte, 8192)
+					buf = buf[:runtime.Stack(buf, false)]
+					if fr := firstRepoFrames(string(buf)); fr != "" {
+						// raised inside lisk-engine while the scenario's own goroutine was calling it (set-up, final clean-up)
+						out.mu.Lock()
+						out.Panics = append(out.Panics, fmt.Sprintf("%s: %v\n%s", name, e, fr))
+						out.mu.Unlock()
+					} else {
+						out.harnessErr("scenario set-up panicked: %v", e)
+					}
 				}
 			}()
 			switch name {
 			case "chain-tip":
-				scnChain(out, true, seed, dur, limit)
+				scnChain(out, true, 0, seed, dur, limit)
 			case "chain-read":
-				scnChain(out, false, seed, dur, limit)
+				scnChain(out, false, 0, seed, dur, limit)
+			case "chain-tip-evict":
+				scnChain(out, true, smallCache, seed, dur, limit)
+			case "chain-read-evict":
+				scnChain(out, false, smallCache, seed, dur, limit)
 			case "bulk":
 				scnBulk(out, seed, dur, limit)
+			case "serve":
+				scnServe(out, seed, dur, limit)
+			case "serve-volatile":
+				scnServeVolatile(out, seed, dur, limit)
 			case "sync":
 				scnSync(out, seed, dur, limit)
 			case "pool":
